@@ -133,7 +133,16 @@ def run_lib(progs):
             stack = [bytes(x) for x in sc.stack] if ok else []
         except Exception:
             ok, stack = False, []
-        out.append((ok, stack))
+        # the same object evaluated once more: evaluation is a function of script and environment
+        again = None
+        try:
+            ok2 = bool(sc.evaluate(message=MSG, env_data=dict(env)))
+            stack2 = [bytes(x) for x in sc.stack] if ok2 else []
+        except Exception:
+            ok2, stack2 = False, []
+        if (ok2, stack2) != (ok, stack):
+            again = (ok2, [x.hex() for x in stack2])
+        out.append((ok, stack, again))
     return out
 
 
@@ -398,6 +407,13 @@ def run(replay=None):
     def show(p):
         return ' '.join(opname.get(c, str(c)) if isinstance(c, int) else c.hex() for c in p)
     ndev = {}
+    for i, o in enumerate(obs):
+        if o[2] is not None:
+            ck.violation(None, 'clause second-evaluation-differs; program [%s]: first evaluation %s stack %s, second evaluation of the same '
+                         'Script object %s stack %s' % (show(progs[i][0]), 'VALID' if o[0] else 'invalid', [x.hex() for x in o[1]],
+                                                        'VALID' if o[2][0] else 'invalid', o[2][1]),
+                         {'prog': [{'t': 'op', 'c': c} if isinstance(c, int) else {'t': 'data', 'd': c.hex()} for c in progs[i][0]],
+                          'env': {k: (x.hex() if isinstance(x, bytes) else x) for k, x in progs[i][1].items()}})
     for (p, e, klass, _), o, v in zip(progs, obs, verdicts):
         ck.case(klass)
         if v['v'] == 'ok':
